@@ -205,7 +205,7 @@ func genMeta(r *rng.R, s *gen.Spec, i int) verParts {
 		v.Meta = rng.Pick(r, []string{"git", "build5", "20200101", "exp.sha.5114f85", "p1"})
 	}
 	if r.P(1, 2) {
-		v.Rel = rng.Pick(r, []string{"1", "2", "17", "r3"})
+		v.Rel = rng.Pick(r, []string{"1", "2", "17", "r3", "4294967296", "20240131120000"})
 	}
 	if r.P(1, 3) {
 		v.Epoch = rng.Pick(r, []string{"0", "1", "3", "12"})
@@ -837,7 +837,13 @@ func c02(run *ev.Run, tier string) {
 		s.Depends = []string{"${VERIF_DEP_A}", "literal-dep", "${VERIF_DEP_B}"}
 		s.Provides = []string{"${VERIF_PROV}"}
 		s.Conflicts = []string{"literal-foe", "${VERIF_FOE}"}
-		envv := map[string]string{"VERIF_DEP_A": "  libpadded", "VERIF_DEP_B": "libtail \n", "VERIF_PROV": "\tvirt-x\t", "VERIF_FOE": "foe-y\r\n"}
+		envv := map[string]string{"VERIF_DEP_A": "  libpadded", "VERIF_DEP_B": "libtail \n", "VERIF_PROV": "\tvirt-x\t", "VERIF_FOE": "foe-y\r\n", "VERIF_FIELD": "from-the-mapping"}
+		// custom fields: whatever is expanded is expanded with the caller's mapping;
+		// the process environment says something else
+		s.Deb.Fields.Set("X-From-Env", "${VERIF_FIELD}")
+		s.IPK.Fields.Set("X-From-Env", "${VERIF_FIELD}")
+		_ = os.Setenv("VERIF_FIELD", "from-the-process-environment")
+		defer os.Unsetenv("VERIF_FIELD")
 		want := map[string][]string{"depends": {"libpadded", "literal-dep", "libtail"}, "provides": {"virt-x"}, "conflicts": {"literal-foe", "foe-y"}}
 		for _, f := range formats {
 			run.Case("relations-through-environment|"+f, true)
@@ -881,6 +887,12 @@ func c02(run *ev.Run, tier string) {
 				got["conflicts"] = want["conflicts"] // no field of its own
 			default:
 				got["depends"], got["provides"], got["conflicts"] = dec.GetAll(p.Meta, "depend"), dec.GetAll(p.Meta, "provides"), dec.GetAll(p.Meta, "conflict")
+			}
+			if f == "deb" || f == "ipk" {
+				atomic.AddInt64(&cmps, 1)
+				if v, ok := p.MetaGet("X-From-Env"); !ok || (v != "from-the-mapping" && v != "${VERIF_FIELD}") {
+					run.Violate("C02/"+f+"/custom-field-from-environment", map[string]any{"got": v, "present": ok, "mapping_says": "from-the-mapping"})
+				}
 			}
 			for rel, w := range want {
 				atomic.AddInt64(&cmps, 1)
